@@ -58,6 +58,11 @@ CLAIMED = {
 
  "C36": sim("Availability clause only: the real AccessRpcServiceServer.LookupRpcService on a real bus writing to a harness stream while matching and non-matching provider controllers are added and removed in tape order and the stream is cancelled at an arbitrary point; exists/removed must strictly alternate starting with exists, the last one must equal (matching providers > 0) at every quiescent point, idle messages never repeat. The component-ID round-trip clause is a pure function of its input and is not decided by simulation.",
             "5 (C36)", "alternation invariant on the response stream + equality with the provider count at quiescence", "Trusts go1.26.8 + runtime overlay; directive callbacks run under the bus lock and are not scheduling points (their interleaving with the server loop is decided by operation order and fake time only)."),
+
+ "C03": sim("Three honest full nodes with the real pconn/QUIC transport, real TLS and quic-go over the simulator's datagram network, plus a harness-built forger endpoint presenting crafted certificate chains (valid control, copied extension, no extension, corrupt ASN.1, wrong signer, two certificates); honest dials under address rebinding, direct HandleConn dial/listen pairs with the expected peer empty, right or wrong; packet loss, duplication, reordering, corruption and clock jumps; every link any transport reports must name an identity that an endpoint which really sent the packets from the link's remote address can prove, a wrong expected peer must give an error and no link.",
+            "5 (C03)", "invariant on every reported link against the packet network's ground truth", "Trusts go1.26.8 + four-file runtime overlay (seeded select/map/timer order, no time-slice preemption), testing/cryptotest for repeatable crypto randomness, and the simulated datagram network as a faithful net.PacketConn; quic-go and crypto/tls internals run real, their goroutine interleavings are repeated per seed, not explored. websocket and WebRTC front-ends are not run."),
+ "C05": sim("Dialer node, wanted peer X and an impostor I on the QUIC world; the address of X is rebound to I and back before, during and after DialPeerAddr(X, addr) and EstablishLinkWithPeer(X) requests, with bounded packet faults, dial cancellation and clock jumps; every successful dial for X must return a link authenticated as X, every directive value must be a link to X, and after the last fault (X owns its address, impostor gone) a fresh request for X must be satisfied within five simulated minutes under a fair schedule.",
+            "5 (C05)", "safety invariant on dial results + bounded liveness after heal", "Trusts go1.26.8 + four-file runtime overlay (seeded select/map/timer order, no time-slice preemption), testing/cryptotest for repeatable crypto randomness, and the simulated datagram network as a faithful net.PacketConn; quic-go and crypto/tls internals run real, their goroutine interleavings are repeated per seed, not explored. websocket and WebRTC front-ends are not run."),
 }
 
 NA_PURE = {
